@@ -1171,6 +1171,21 @@ class Engine:
         ast.fix_missing_locations(node)
         return SBool(self.truth(path, self.ev(path, node)))
 
+    def _minmax(self, path, e, is_max):
+        vals = [self.ev(path, a) for a in e.args]
+        if len(vals) < 2 or e.keywords or not all(isinstance(v, SInt) for v in vals):
+            raise EngineError(f"{'max' if is_max else 'min'}() of something other than two or more integers (line {e.lineno})")
+        r = vals[0].t
+        for v in vals[1:]:
+            r = z3.If(v.t > r, v.t, r) if is_max else z3.If(v.t < r, v.t, r)
+        return SInt(r)
+
+    def bi_max(self, path, e):
+        return self._minmax(path, e, True)
+
+    def bi_min(self, path, e):
+        return self._minmax(path, e, False)
+
     def bi_any(self, path, e):
         return self._unrolled_quantifier(path, e, ast.Or())
 
